@@ -12,7 +12,7 @@
     returned [Some v], taken from the slot holding publication [k], during callback [a]. *)
 From Coq Require Import ZArith List Arith Sorted.
 From KV Require Import Base.Outcome Base.Num C06.Model C03.Model C04.Transport.
-From KV Require Import C07.Model C07.ProofsBuf C07.ProofsSys C07.ProofsThm C07.ProofsFinal C07.Multi C07.ProofsMulti.
+From KV Require Import C07.Model C07.ProofsBuf C07.ProofsSys C07.ProofsThm C07.ProofsFinal C07.Multi C07.ProofsMulti C07.ProofsChunk.
 Import ListNotations.
 
 (** The writer's input slot, the back slot and the reader's output slot are always three
@@ -320,3 +320,39 @@ Theorem decoder_seeks_before_loop_region_refuted : exists t iv vr vp,
   interval_effect (decz_apply 200) dec_order_seeks_first iv (Ok t) <>
   Ok {| t_pos := fst vp; t_loop := None; t_playing := if (fst vp >=? 200)%Z then false else t_playing t |}.
 Proof. exact f_dec_seeded_refuted. Qed.
+
+(** ** Commands written WHILE a callback is being rendered ([ProofsChunk.v])
+
+    A device callback is [CStart] (the drain: [on_start_processing]) followed by any number of
+    [CChunk] (the rendering of one internal buffer); the game thread's [CIssue k v] may fall
+    anywhere, in particular between two chunks of a callback.  [c_exec] is the code (rendering a
+    chunk reads no command); [erase_chunks h] is the history of [Multi.v] with the chunks erased.
+    Wherever the chunk boundaries and the writes fall: [v] of kind [k] is applied in callback [a]
+    if and only if it is the last command of its kind written since callback [a - 1] STARTED
+    (its drain) and before callback [a] starts -- so a command written while callback [a - 1] is
+    being rendered is never applied inside it, and of several written during its chunks only the
+    last is applied, at the start of callback [a], once. *)
+Theorem chunked_applied_iff_last_of_interval : forall (St : Type) (apply : nat -> val -> St -> St) order s0 h a k v, NoDup order ->
+  (In (a, k, v) (m_log (c_exec apply order h (m_init s0))) <->
+   exists iv, 1 <= a /\ nth_error (closed_intervals (erase_chunks h)) (a - 1) = Some iv /\ In k order /\ last_of k iv = Some v).
+Proof. exact p_chunked_applied_iff. Qed.
+Theorem chunked_applied_once : forall (St : Type) (apply : nat -> val -> St -> St) order s0 h, NoDup order ->
+  NoDup (map fst (m_log (c_exec apply order h (m_init s0)))).
+Proof. exact p_chunked_once. Qed.
+(** Rendering a chunk changes neither the state, nor the log, nor any reader. *)
+Theorem chunk_rendering_reads_no_command : forall (St : Type) (apply : nat -> val -> St -> St) order h s0,
+  c_exec apply order (h ++ [CChunk]) (m_init s0) = c_exec apply order h (m_init s0).
+Proof. exact p_chunk_changes_nothing. Qed.
+
+(** The reading that is not the code -- the reader of a send route's volume is read at the top of
+    [Track::process], once per chunk, instead of in [read_commands] -- violates both (witnesses
+    replayed by the harness, part (m)): a [set_send] written while chunk 0 of callback 1 is rendered
+    is applied inside callback 1; a close and a re-open written during two chunks of callback 1 are
+    both applied in callback 1. *)
+Theorem per_chunk_drain_applies_early_refuted : exists h a k v,
+  In (a, k, v) (m_log (route_perchunk h)) /\
+  ~ (exists iv, 1 <= a /\ nth_error (closed_intervals (erase_chunks h)) (a - 1) = Some iv /\ In k route_order /\ last_of k iv = Some v).
+Proof. exact f_perchunk_early. Qed.
+Theorem per_chunk_drain_applies_twice_refuted : exists h,
+  ~ NoDup (map fst (m_log (route_perchunk h))).
+Proof. exact f_perchunk_twice. Qed.
